@@ -21,8 +21,9 @@ class C02(Prop):
                   "leading multi-byte character). PARTIAL: (a) wall-clock time, real stack and allocator are measured, not proved: the totality stream "
                   "runs all ~58 public entry points on every case under a supervisor (panic / hang / abort are violations) and totality-scale "
                   "times every entry point on adversarial seeds of growing size (worse-than-quadratic growth or > 5 s is a violation), and totality-stack "
-                  "runs every entry point on the repeated seeds in a thread with a 256 KiB stack (stack use growing with the input overflows it: ABORT); (b) byte-boundary safety of the slicing in the remaining readers (relations lexer: chars().peekable(), no slicing; "
-                  "lossy readers, pgp, codecs: str methods returning boundaries) is not modelled at byte level and rests on the streams; (c) the "
+                  "runs every entry point on the repeated seeds in a thread with a 256 KiB stack (stack use growing with the input overflows it: ABORT); (b) the remaining readers (relations lexer: chars().peekable(); lossy readers, pgp, codecs) contain no byte-range slicing "
+                  "expression at all — C02_slice_sites_complete: the translator's scan of the library code of the five crates finds exactly the "
+                  "transcribed sites (lex.rs 7, vcs.rs 5, changes.rs 1) — and rest on std str methods returning character boundaries (trusted) and on the streams; (c) the "
                   "external parsers themselves (url, chrono, debversion, regex) and the remaining small FromStr impls (checksum/record types, "
                   "lossless typed wrappers, which only wrap Deb822::from_str) are decided by the stream.")
     level_note = ("Models: the cones of C01, C06, C09, C14, C17, C18, C19, C20 (their own notes apply); model/Utf8.v (byte offsets, is_boundary proved equal to "
